@@ -226,6 +226,30 @@ def discover():
     return found, broken
 
 
+def h_wire_values(ctx, cls, n):
+    """free-text fields that happen to look like numbers ("24.12.", "007.", "1-2"): the stanza an entity produces keeps the value
+    through the real binary codec (packed string forms) and the entity read back returns it"""
+    from checks import codec_common as CC
+    from yowsup.layers.protocol_presence.protocolentities import PresenceProtocolEntity
+    from yowsup.layers.protocol_groups.protocolentities import SubjectGroupsIqProtocolEntity
+    s = CC.classed_string(ctx, "s", n, cls)
+    which = ctx.choice("entity", ["presence name", "group subject"])
+    if which == "presence name":
+        ent = PresenceProtocolEntity("available", s)
+        get = lambda e: e.name
+    else:
+        ent = SubjectGroupsIqProtocolEntity("4915900000001-1400000000@g.us", s)
+        get = lambda e: e.subject if hasattr(e, "subject") else None
+    node = ent.toProtocolTreeNode()
+    frame = CC.lib_encode(ctx, node)
+    out = CC.lib_decode(ctx, frame)
+    obs = CC.tree_obs("wire", node, out)
+    if which == "presence name" and out is not None:
+        back = PresenceProtocolEntity.fromProtocolTreeNode(out)
+        obs.append(("the entity read back returns the value", back.name == s))
+    return obs
+
+
 def cases(tier):
     from checks import c09_templates
     found, broken = discover()
@@ -248,6 +272,9 @@ def cases(tier):
             for v in variants:
                 cs.append(dict(name="fixture[%s,%s,%s]" % (short, role, v), fn=h_fixture, args=(modname, name, v, role), timeout_s=120, max_paths=3000, keep_samples=3))
     cs += c09_templates.cases(tier)
+    for cls in ("digits", "nibble", "hex"):
+        for n in ((2, 4) if tier == "quick" else (1, 2, 3, 4, 5, 6)):
+            cs.append(dict(name="wire-values[%s,n=%d]" % (cls, n), fn=h_wire_values, args=(cls, n), timeout_s=300))
     return cs
 
 
